@@ -291,6 +291,93 @@ fn apply_def_edit(text: &str, line: usize, name: &str, delete: bool) -> String {
     out.join(eol)
 }
 
+/// reference sites the converter must resolve: (line, key, referenced name, enclosing block name, its type)
+fn reference_sites(text: &str) -> Vec<(usize, String, String, String, String)> {
+    let mut out = vec![];
+    let mut cur: Option<(String, String)> = None;
+    for (i, l) in text.lines().enumerate() {
+        let t = l.trim();
+        if t.starts_with('"') {
+            if let Some(q) = t[1..].find('"') {
+                let after = t[q + 2..].trim_start();
+                if let Some(ty) = after.strip_prefix('=') {
+                    cur = Some((t[1..1 + q].to_string(), ty.trim().to_string()));
+                    continue;
+                }
+            }
+        }
+        if t == ".." || t.ends_with("..") {
+            cur = None;
+            continue;
+        }
+        if let Some((bname, bty)) = &cur {
+            let keys: &[&str] = match bty.as_str() {
+                "SPACE-CONDITIONS" => &["PEOPLE-SCHEDULE", "EQUIP-SCHEDULE", "LIGHTING-SCHEDULE"],
+                "GAP" => &["GLASS-TYPE", "NAME-FRAME"],
+                _ => &[],
+            };
+            for k in keys {
+                if t.starts_with(k) && t[k.len()..].trim_start().starts_with('=') {
+                    if let Some(a) = t.find('"') {
+                        if let Some(b) = t[a + 1..].find('"') {
+                            out.push((i, k.to_string(), t[a + 1..a + 1 + b].to_string(), bname.clone(), bty.clone()));
+                        }
+                    }
+                }
+            }
+        }
+    }
+    out
+}
+
+/// respell = 2: ONE reference (not the definition) is changed to a name nobody defines
+fn check_reference_edit(h: &CaseH, c: &EditCase) -> Verdict {
+    let (path, text) = match &c.bld {
+        Some(b) => ("x.ctehexml".to_string(), gb::print_ctehexml(b, &[])),
+        None => (c.file.clone(), read_project(&c.file)),
+    };
+    let sites = reference_sites(&text);
+    if sites.is_empty() {
+        return Verdict::Pass;
+    }
+    let (line, key, name, bname, bty) = sites[(c.def as usize) % sites.len()].clone();
+    let m0 = match catch(|| convert_any(&path, &text)) {
+        Ok(Ok(m)) => m,
+        _ => return Verdict::Pass,
+    };
+    let live = match bty.as_str() {
+        "SPACE-CONDITIONS" => m0.loads.iter().filter(|x| x.name == bname).any(|l| m0.spaces.iter().any(|sp| sp.loads == Some(l.id))),
+        "GAP" => m0.cons.wincons.iter().any(|x| x.name == bname),
+        _ => false,
+    };
+    // HULC repeats some blocks; only a block defined once can be broken through one of its lines
+    let defs = text.lines().filter(|l| { let t = l.trim_start(); t.starts_with(&format!("\"{}\"", bname)) && t[bname.len() + 2..].trim_start().starts_with('=') }).count();
+    let edited: String = text.split('\n').enumerate().map(|(i, l)| if i == line { l.replacen(&format!("\"{}\"", name), &format!("\"{}_zz\"", name), 1) } else { l.to_string() }).collect::<Vec<_>>().join("\n");
+    let what = format!("{} with the reference {} = {:?} of {} {:?} changed to an undefined name", if c.bld.is_some() { "generated project" } else { c.file.trim_start_matches("/repo/hulc_tests/tests/") }, key, name, bty, bname);
+    h.class(&format!("edit/reference/{}", key));
+    h.nontrivial(fp(&(c.file.clone(), line, 2u8)));
+    match catch(|| convert_any(&path, &edited)) {
+        Ok(Err(_)) => {
+            h.class("outcome/error");
+            Verdict::Pass
+        }
+        Ok(Ok(m)) => {
+            h.class("outcome/still-converted");
+            let v = verdict_closed(&m, &what);
+            if v.is_fail() {
+                return v;
+            }
+            // a block that the built-in catalogue also defines is replaced by the catalogue's when the two are merged
+            let block_in_catalogue = CATALOGUE_NAMES.with(|c| c.contains(&bname));
+            if live && defs == 1 && !block_in_catalogue {
+                return Verdict::fail(format!("C02:edit:broken-live-reference-converted:{}", key), format!("{}: the block is used by the intact project's model, yet the project still converts", what));
+            }
+            Verdict::Pass
+        }
+        Err(p) => Verdict::from_panic("C02:convert-edited", &p),
+    }
+}
+
 thread_local! {
     /// names that the built-in LIDER catalogue also defines (a project may lose its own definition of those)
     static CATALOGUE_NAMES: std::collections::HashSet<String> = {
@@ -308,6 +395,9 @@ thread_local! {
 }
 
 fn check_edit(h: &CaseH, c: &EditCase) -> Verdict {
+    if c.respell == 2 {
+        return check_reference_edit(h, c);
+    }
     let (path, text) = match &c.bld {
         Some(b) => ("x.ctehexml".to_string(), gb::print_ctehexml(b, &[])),
         None => (c.file.clone(), read_project(&c.file)),
@@ -447,7 +537,7 @@ fn check_edit(h: &CaseH, c: &EditCase) -> Verdict {
 
 pub fn run(args: &Args) -> ! {
     let ctx = Ctx::new("C02", "exploration", args);
-    ctx.rule("real: all shipped .ctehexml (parse_with_catalog) and legacy .cte (Data::new + catalogue) projects; generated: typed buildings printed to .ctehexml (half with a systems section transplanted from a shipped project); edits: each of those with ONE definition that is referenced elsewhere renamed or removed, or consistently respelt (definition and every reference) with two consecutive blanks in the name (material, layers, construction, glass, frame, gap, polygon, floor, space, wall, day/week/year schedule, space/system conditions; quick: seeded slice, thorough: every referenced definition of every real project). Oracle: closure computed by the harness (unique ids per collection, every reference resolves, no nil id, bemodel::check empty), for generated projects every link the source declares is present in the model, for edits: Err, or Ok and closed and (broken references) no reference to the edited definition silently dropped; a renamed or removed definition that is live (the intact project's model contains the item and something in that model links to it), unique in the text and absent from the built-in catalogue must give Err; and the outcome (error, or the model's JSON) of the edited project converted right after its intact original equals the outcome in a fresh process that has converted nothing. Non-trivial: project with windows and schedules; edit of a definition that is actually referenced.");
+    ctx.rule("real: all shipped .ctehexml (parse_with_catalog) and legacy .cte (Data::new + catalogue) projects; generated: typed buildings printed to .ctehexml (half with a systems section transplanted from a shipped project); edits: each of those with ONE definition that is referenced elsewhere renamed or removed, or consistently respelt (definition and every reference) with two consecutive blanks in the name, or with ONE reference (schedule references of a SPACE-CONDITIONS block, glass / frame reference of a GAP block) changed to an undefined name (material, layers, construction, glass, frame, gap, polygon, floor, space, wall, day/week/year schedule, space/system conditions; quick: seeded slice, thorough: every referenced definition of every real project). Oracle: closure computed by the harness (unique ids per collection, every reference resolves, no nil id, bemodel::check empty), for generated projects every link the source declares is present in the model, for edits: Err, or Ok and closed and (broken references) no reference to the edited definition silently dropped; a renamed or removed definition that is live (the intact project's model contains the item and something in that model links to it), unique in the text and absent from the built-in catalogue must give Err; and the outcome (error, or the model's JSON) of the edited project converted right after its intact original equals the outcome in a fresh process that has converted nothing. Non-trivial: project with windows and schedules; edit of a definition that is actually referenced.");
     ctx.assume("names are unique per kind inside one project (HULC guarantees it)");
     ctx.replay_regressions(replay_one);
     let files = real_files();
@@ -468,12 +558,13 @@ pub fn run(args: &Args) -> ! {
                         cases.push(EditCase { file: f.clone(), bld: None, def: d as u32, delete, respell: 0 });
                     }
                     cases.push(EditCase { file: f.clone(), bld: None, def: d as u32, delete: false, respell: 1 });
+                    cases.push(EditCase { file: f.clone(), bld: None, def: d as u32, delete: false, respell: 2 });
                 }
             }
             Tier::Quick => {
-                for k in 0..18u64 {
+                for k in 0..22u64 {
                     let d = mix(ctx.seed(), f, k) % n as u64;
-                    cases.push(EditCase { file: f.clone(), bld: None, def: d as u32, delete: k < 12 && k % 2 == 1, respell: u8::from(k >= 12) });
+                    cases.push(EditCase { file: f.clone(), bld: None, def: if k >= 18 { mix(ctx.seed(), f, k) as u32 } else { d as u32 }, delete: k < 12 && k % 2 == 1, respell: if k >= 18 { 2 } else { u8::from(k >= 12) } });
                 }
             }
         }
@@ -482,10 +573,10 @@ pub fn run(args: &Args) -> ! {
     ctx.run_prop(
         "edited_generated",
         ctx.tier().pick(600, 20_000),
-        || (gb::bld(), any::<u32>(), any::<bool>(), prop_oneof![2 => Just(0u8), 1 => Just(1u8)]).prop_map(|(b, def, delete, respell)| EditCase { file: String::new(), bld: Some(Box::new(b)), def, delete: delete && respell == 0, respell }),
+        || (gb::bld(), any::<u32>(), any::<bool>(), prop_oneof![4 => Just(0u8), 2 => Just(1u8), 3 => Just(2u8)]).prop_map(|(b, def, delete, respell)| EditCase { file: String::new(), bld: Some(Box::new(b)), def, delete: delete && respell == 0, respell }),
         check_edit,
     );
-    for c in ["real/converted", "edited_real/outcome/error", "edited_generated/outcome/error", "edited_generated/edit/respell/MATERIAL", "edited_real/edit/respell/MATERIAL", "edited_generated/live-unique-definition-broken(must fail)", "edited_real/live-unique-definition-broken(must fail)", "generated/with-systems-section"] {
+    for c in ["real/converted", "edited_real/outcome/error", "edited_generated/outcome/error", "edited_generated/edit/respell/MATERIAL", "edited_real/edit/respell/MATERIAL", "edited_generated/live-unique-definition-broken(must fail)", "edited_real/live-unique-definition-broken(must fail)", "edited_generated/edit/reference/PEOPLE-SCHEDULE", "edited_real/edit/reference/PEOPLE-SCHEDULE", "generated/with-systems-section"] {
         ctx.require_class(c);
     }
     ctx.finish()
